@@ -144,6 +144,12 @@ class Stress:
             return tot
 
         patches = ((st, "evaluate_deriv_reduced_density_matrix", rdm), (st, "evaluate_density_laplacian", lap), (st, "evaluate_deriv_density", dd))
+        inline = getattr(self, "inline", False)
+        if inline:
+            # nothing of the density layer is replaced: only the orbital evaluations at the bottom are (opaque Phi^(o)),
+            # so the verdict does not depend on which density routines the stress code chooses to call
+            dens = M.mods["gbasis.evals.density"]
+            patches = ((dens, "evaluate_basis", stub.evaluate_basis), (dens, "evaluate_deriv_basis", stub.evaluate_deriv_basis))
         if shape["alpha"] == "rejects":
             with bind.patched(*patches):
                 for fn in (st.evaluate_stress_tensor, st.evaluate_ehrenfest_force, st.evaluate_ehrenfest_hessian):
@@ -165,8 +171,12 @@ class Stress:
                 fr = Frame(dm=dm, points=points)
                 res[name] = fn(dm, basis, points, transform=transform, **kw, **extra)
                 fr.check(M, name, res[name])
-                M.true(name + "/pre@density-routines", len(calls) > 0 and all(c[0] is dm and c[1] is basis and c[2] is points and c[3] is transform and c[4] == "general" for c in calls),
-                       "density matrix, basis, points, transform forwarded to every density routine")
+                if inline:
+                    stub.check_calls(M, name, basis, points, transform)
+                    del stub.calls[:]
+                else:
+                    M.true(name + "/pre@density-routines", len(calls) > 0 and all(c[0] is dm and c[1] is basis and c[2] is points and c[3] is transform and c[4] == "general" for c in calls),
+                           "density matrix, basis, points, transform forwarded to every density routine")
         # ---- specification side
         SF = M.SF
         sal = M.to_spec(alpha) if (not M.symbolic and shape["alpha"] == "sym") else (alpha if not isinstance(alpha, float) else SF.num(1) * 0 + _frac(SF, alpha))
@@ -207,3 +217,18 @@ def _frac(SF, x):
     from fractions import Fraction
 
     return SF.num(Fraction(x))
+
+
+class StressInline(Stress):
+    """the same three laws with the whole density layer REAL (only evaluate_basis / evaluate_deriv_basis are replaced by
+    opaque orbital derivatives Phi^(o)): independent of which density routines the stress code calls and how"""
+
+    function = "gbasis.evals.stress_tensor.* (inline: real density routines; orbital evaluations opaque)"
+    inline = True
+
+    def shapes(self, tier):
+        out = [dict(alpha="sym", beta="sym", nb=2, npts=1, transform=True), dict(alpha="sym", beta="sym", nb=2, npts=1, transform=False),
+               dict(alpha=0.5, beta=1, nb=2, npts=1, transform=True)]
+        if tier == "thorough":
+            out += [dict(alpha=0, beta="sym", nb=3, npts=2, transform=True), dict(alpha=1, beta=0, nb=2, npts=1, transform=False)]
+        return out
